@@ -194,6 +194,17 @@ def classify(text, rc, res, timed_out):
     res.status, res.reason = "inconclusive", "FAILED without a failed check (%d undetermined)" % len(undet)
 
 
+CHILDREN = set()
+
+
+def kill_children():
+    for pid in list(CHILDREN):
+        try:
+            os.killpg(pid, signal.SIGKILL)
+        except Exception:
+            pass
+
+
 def _limit(mem_gb):
     def f():
         os.setsid()
@@ -216,6 +227,7 @@ def run_one(hdir, target_dir, harness, log_path, timeout_s, mem_gb, extra_args=(
     with open(log_path, "w") as lf:
         p = subprocess.Popen(cmd, cwd=hdir, env=_env(), stdout=lf, stderr=subprocess.STDOUT,
                              preexec_fn=_limit(mem_gb))
+        CHILDREN.add(p.pid)
         try:
             rc = p.wait(timeout=timeout_s)
         except subprocess.TimeoutExpired:
@@ -225,6 +237,8 @@ def run_one(hdir, target_dir, harness, log_path, timeout_s, mem_gb, extra_args=(
             except ProcessLookupError:
                 pass
             rc = p.wait()
+        finally:
+            CHILDREN.discard(p.pid)
     res.wall_s = time.time() - t0
     text = open(log_path, errors="replace").read()
     classify(text, rc, res, timed_out)
@@ -281,6 +295,7 @@ def concrete_playback(hdir, target_dir, harness, log_path, timeout_s, mem_gb, ex
     with open(log_path, "w") as lf:
         p = subprocess.Popen(cmd, cwd=hdir, env=_env(), stdout=lf, stderr=subprocess.STDOUT,
                              preexec_fn=_limit(mem_gb))
+        CHILDREN.add(p.pid)
         try:
             p.wait(timeout=timeout_s)
         except subprocess.TimeoutExpired:
@@ -290,6 +305,8 @@ def concrete_playback(hdir, target_dir, harness, log_path, timeout_s, mem_gb, ex
                 pass
             p.wait()
             return []
+        finally:
+            CHILDREN.discard(p.pid)
     text = open(log_path, errors="replace").read()
     tests = []
     for m in re.finditer(r"```\n(/// Test generated for harness.*?)```", text, re.S):
